@@ -19,6 +19,7 @@ import operator
 import pickle
 import re
 
+import dns.edns
 import dns.immutable
 import dns._immutable_ctx as ictx
 import dns.name
@@ -1720,8 +1721,6 @@ def extra(ctx):
     classes = _rdata_subclasses()
     registered = set(dns.rdata._rdata_classes.values())
     # ---- class level: the mixin is in place and every __init__/__setstate__ in the chain is wrapped
-    import dns.edns
-
     option_classes = {c for c in vars(dns.edns).values()
                       if isinstance(c, type) and issubclass(c, dns.edns.Option) and c is not dns.edns.Option}
     for c in sorted(classes | option_classes | {dns.rdata.Rdata, dns.name.Name, dns.rdataset.ImmutableRdataset, dns.immutable.Dict},
